@@ -355,7 +355,7 @@ def is_convex_ccw(xy):
     return bool(np.all(e1[:, 0] * e2[:, 1] - e1[:, 1] * e2[:, 0] > 0))
 
 
-def polygon_case(rng, allow_tilt=True, kind=None):
+def polygon_case(rng, allow_tilt=True, kind=None, straight_frac=0.12):
     """One G-poly case: 3-D vertex list, the stated normal (or None), and facts."""
     xy, k = simple_polygon_2d(rng)
     if kind is not None:
@@ -365,12 +365,28 @@ def polygon_case(rng, allow_tilt=True, kind=None):
             xy, k = simple_polygon_2d(rng)
     scale = float(np.exp(rng.uniform(-1.5, 1.5))) if k != "lattice" else 1.0
     xy = xy * scale
+    # straight corners: a vertex in the middle of an edge (exactly collinear on the lattice, collinear within rounding
+    # otherwise) leaves the polygon simple and planar; a third of them are rolled into the first three positions below
+    straight = None
+    if straight_frac and rng.random() < straight_frac and len(xy) <= 40:
+        j = int(rng.integers(len(xy)))
+        a, b = xy[j], xy[(j + 1) % len(xy)]
+        mid = (a + b) / 2
+        if k != "lattice" or np.all(mid == np.round(mid)):
+            xy = np.insert(xy, j + 1, mid, axis=0)
+            straight = j + 1
     n = len(xy)
     ccw_in_plane = bool(rng.random() < 0.5)
     if not ccw_in_plane:
         xy = xy[::-1]
+        if straight is not None:
+            straight = n - 1 - straight
     shift = int(rng.integers(n))
+    if straight is not None and rng.random() < 0.4:
+        shift = (straight - 1) % n           # the straight corner becomes vertex 1: the first three vertices are collinear
     xy = np.roll(xy, -shift, axis=0)
+    if straight is not None:
+        straight = (straight - shift) % n
     tilt = allow_tilt and rng.random() < 0.5
     V = np.column_stack((xy, np.zeros(n)))
     plane_n = np.array([0.0, 0.0, 1.0])
@@ -398,9 +414,14 @@ def polygon_case(rng, allow_tilt=True, kind=None):
     elif k == "lattice":
         V[:, :2] += rng.integers(-10, 11, size=2)
     # default normal of coxeter = cross(v2-v1, v0-v1) normalised; orientation about it
-    dn = np.cross(V[2] - V[1], V[0] - V[1])
-    dn /= np.linalg.norm(dn)
     mode = str(rng.choice(["default", "plus", "minus"]))
+    if straight == 1:
+        # no default normal is defined by three collinear vertices: the normal is stated explicitly
+        mode = str(rng.choice(["plus", "minus"]))
+        dn = plane_n
+    else:
+        dn = np.cross(V[2] - V[1], V[0] - V[1])
+        dn /= np.linalg.norm(dn)
     if mode == "default":
         normal_arg, normal = None, dn
     elif mode == "plus":
@@ -412,7 +433,8 @@ def polygon_case(rng, allow_tilt=True, kind=None):
     # orientation of the listed cycle about the effective normal
     ccw_about_normal = (ccw_in_plane == (np.dot(normal, plane_n) > 0))
     return {"V": V, "normal_arg": normal_arg, "normal": normal / np.linalg.norm(normal), "kind": k,
-            "tilted": bool(tilt), "ccw": bool(ccw_about_normal), "convex": is_convex_ccw(xy if ccw_in_plane else xy[::-1]),
+            "tilted": bool(tilt), "ccw": bool(ccw_about_normal), "straight_corner": straight,
+            "convex": straight is None and is_convex_ccw(xy if ccw_in_plane else xy[::-1]),
             "size": diameter(V), "xy_plane": (not tilt), "lattice": k == "lattice" and not tilt,
             "normal_mode": mode}
 
